@@ -3,7 +3,9 @@ package rules
 import (
 	"fmt"
 	"go/token"
+	"go/types"
 	"regexp"
+	"regexp/syntax"
 	"sort"
 	"strings"
 
@@ -15,7 +17,7 @@ import (
 func init() {
 	register("C16", PropCheck{
 		Title:      "The assembler emits exactly the instructions that were written",
-		Explain:    "Three clauses with structural content: (R1) no string that the assembler writes as a symbol, selector or label (argument of the symbol writer, or of the batch menu processor) derives from a numeric capture of the grammar (Arg.Size / Arg.Flag) through an integer-to-string conversion - such re-rendering drops leading zeros and trailing letters; (R2) batch expansion equals the documentation: from MenuProcessor.ToLines the per-batch-code pair (instruction before HALT with its argument roles, instruction after HALT with its target and argument roles) is extracted and compared with the expansion table of doc/texinfo/instructions.texi, exactly two instruction buffers exist (before/after), every batch line contributes one instruction to each in source order, and the result is before + HALT + after; (R3) the opcode written for a source line is the OpcodeIndex entry of that line's mnemonic, written once per line; (R4) the integer encoder never right-trims the big-endian buffer (shared with C14 R4).",
+		Explain:    "Three clauses with structural content: (R1) no string that the assembler writes as a symbol, selector or label (argument of the symbol writer, or of the batch menu processor) derives from a numeric capture of the grammar (Arg.Size / Arg.Flag) through an integer-to-string conversion - such re-rendering drops leading zeros and trailing letters; (R2) batch expansion equals the documentation: from MenuProcessor.ToLines the per-batch-code pair (instruction before HALT with its argument roles, instruction after HALT with its target and argument roles) is extracted and compared with the expansion table of doc/texinfo/instructions.texi, exactly two instruction buffers exist (before/after), every batch line contributes one instruction to each in source order, and the result is before + HALT + after; (R3) the opcode written for a source line is the OpcodeIndex entry of that line's mnemonic, written once per line; (R4) the integer encoder never right-trims the big-endian buffer (shared with C14 R4); (R5) numbers written are read as numbers: the lexer's constant rule table is read from the initialiser's SSA, every pattern is parsed with regexp/syntax, exactly one token class can begin with a decimal digit and the grammar's integer captures (Arg.Size, Arg.Flag) are bound to that class (added after seeded change C16-C); (R6) each source line is assembled in a buffer allocated for it - the buffer handed to the opcode writer is a bytes.NewBuffer result or local of the line emitter (or, for a helper, of every caller), never pooled or package-level - and vm.NewLine appends each string argument itself, not a slice or derivative (added after seeded changes C16-E and C16-F).",
 		NotDecided: "per-program translation fidelity in general (needs an independent parse of the source); the participle grammar itself; comments and blank lines.",
 		Run:        runC16,
 	})
@@ -26,6 +28,8 @@ func runC16(w *core.World, r *core.Report) {
 	r.Rule("R2", "batch expansion (ToLines) equals the table in instructions.texi; two buffers, source order, before + HALT + after")
 	r.Rule("R3", "opcode written = OpcodeIndex[mnemonic of the line], once per line")
 	r.Rule("R4", "integer encoder never right-trims the big-endian buffer")
+	r.Rule("R6", "each source line is assembled in a buffer allocated for it (no pooled or package-level buffer); vm.NewLine appends its string arguments unmodified")
+	r.Rule("R5", "lexer: exactly one token class can start with a decimal digit, and the grammar's integer captures are bound to it")
 
 	// ---- R1 -----------------------------------------------------------------------------------
 	n1 := 0
@@ -133,6 +137,11 @@ func runC16(w *core.World, r *core.Report) {
 
 	// ---- R4 -----------------------------------------------------------------------------------
 	checkNoRightTrim(w, r, "R4")
+	// ---- R5 -----------------------------------------------------------------------------------
+	checkNumericTokenClass(w, r, "R5")
+	// ---- R6 -----------------------------------------------------------------------------------
+	checkFreshLineBuffer(w, r, "R6")
+	checkNewLineArgsUnmodified(w, r, "R6")
 }
 
 type batchShape struct {
@@ -370,4 +379,303 @@ func reRenderSite(fn *ssa.Function) string {
 		return core.QName(fn)
 	}
 	return "asm line emitter (two-symbol layout)"
+}
+
+// checkNumericTokenClass (C16 R5): numbers written in the source are read as numbers. The lexer's
+// rule table (constant strings in package asm's initialiser) is read from the SSA and each pattern
+// is parsed with regexp/syntax (nothing is executed): exactly one token class can begin with a
+// decimal digit, and the grammar's integer captures (fields of Arg with an unsigned integer
+// pointer type) are bound to that class. A second class that can start with a digit makes the
+// reading of `04` depend on rule order.
+func checkNumericTokenClass(w *core.World, r *core.Report, rule string) {
+	var initFn *ssa.Function
+	if sp := w.SSA["asm"]; sp != nil {
+		initFn = sp.Func("init")
+	}
+	if initFn == nil {
+		r.Undecided(rule, "assembler lexer rules", token.NoPos, "package initialiser of asm not found")
+		return
+	}
+	type ruleT struct{ name, pat string }
+	rules := map[int64]*ruleT{}
+	for _, in := range allInstrs(initFn) {
+		st, ok := in.(*ssa.Store)
+		if !ok {
+			continue
+		}
+		sv, isStr := core.ConstString(st.Val)
+		if !isStr {
+			continue
+		}
+		fa, ok := st.Addr.(*ssa.FieldAddr)
+		if !ok {
+			continue
+		}
+		ia, ok := fa.X.(*ssa.IndexAddr)
+		if !ok {
+			continue
+		}
+		if !strings.Contains(ia.X.Type().String(), "SimpleRule") {
+			continue
+		}
+		idx, ok := core.ConstInt(ia.Index)
+		if !ok {
+			continue
+		}
+		if rules[idx] == nil {
+			rules[idx] = &ruleT{}
+		}
+		if fa.Field == 0 {
+			rules[idx].name = sv
+		} else {
+			rules[idx].pat = sv
+		}
+	}
+	if len(rules) == 0 {
+		r.Undecided(rule, "assembler lexer rules", initFn.Pos(), "no constant lexer rule table found in the initialiser")
+		return
+	}
+	r.Touch("asm.init")
+	var digitClasses []string
+	for _, rl := range rules {
+		re, err := syntax.Parse(rl.pat, syntax.Perl)
+		if err != nil {
+			r.Undecided(rule, "assembler lexer rule "+rl.name, initFn.Pos(), "pattern does not parse: "+err.Error())
+			return
+		}
+		if canStartWithDigit(re.Simplify()) {
+			digitClasses = append(digitClasses, rl.name)
+		}
+	}
+	sort.Strings(digitClasses)
+	// integer captures of the grammar
+	bound := true
+	var capt []string
+	for _, fld := range structFields(w, "asm", "Arg") {
+		pt, ok := fld.Type().(*types.Pointer)
+		if !ok {
+			continue
+		}
+		bt, ok := pt.Elem().Underlying().(*types.Basic)
+		if !ok || bt.Info()&types.IsInteger == 0 {
+			continue
+		}
+		tag := structTag(w, "asm", "Arg", fld.Name())
+		capt = append(capt, fld.Name())
+		if len(digitClasses) != 1 || !strings.Contains(tag, "@"+digitClasses[0]) {
+			bound = false
+		}
+	}
+	r.Check(len(digitClasses) == 1 && bound && len(capt) > 0, rule, "assembler lexer: one numeric token class", initFn.Pos(),
+		fmt.Sprintf("only %v can start with a digit; integer captures %v are bound to it", digitClasses, capt),
+		fmt.Sprintf("token classes that can start with a decimal digit: %v (exactly one expected, bound to the integer captures %v): how a number such as 04 is read depends on rule order, so the instruction emitted is not the one written", digitClasses, capt))
+}
+
+// canStartWithDigit: the regular expression can match a string whose first byte is '0'..'9'.
+func canStartWithDigit(re *syntax.Regexp) bool {
+	switch re.Op {
+	case syntax.OpLiteral:
+		return len(re.Rune) > 0 && re.Rune[0] >= '0' && re.Rune[0] <= '9'
+	case syntax.OpCharClass:
+		for i := 0; i+1 < len(re.Rune); i += 2 {
+			if re.Rune[i] <= '9' && re.Rune[i+1] >= '0' {
+				return true
+			}
+		}
+		return false
+	case syntax.OpAnyChar, syntax.OpAnyCharNotNL:
+		return true
+	case syntax.OpCapture, syntax.OpPlus:
+		return canStartWithDigit(re.Sub[0])
+	case syntax.OpStar, syntax.OpQuest:
+		return canStartWithDigit(re.Sub[0]) // (and the empty match, which starts nothing)
+	case syntax.OpRepeat:
+		return canStartWithDigit(re.Sub[0])
+	case syntax.OpAlternate:
+		for _, s := range re.Sub {
+			if canStartWithDigit(s) {
+				return true
+			}
+		}
+		return false
+	case syntax.OpConcat:
+		for _, s := range re.Sub {
+			if canStartWithDigit(s) {
+				return true
+			}
+			if !canBeEmpty(s) {
+				return false
+			}
+		}
+		return false
+	}
+	return false
+}
+
+func canBeEmpty(re *syntax.Regexp) bool {
+	switch re.Op {
+	case syntax.OpEmptyMatch, syntax.OpBeginLine, syntax.OpEndLine, syntax.OpBeginText, syntax.OpEndText, syntax.OpWordBoundary, syntax.OpNoWordBoundary, syntax.OpStar, syntax.OpQuest:
+		return true
+	case syntax.OpCapture:
+		return canBeEmpty(re.Sub[0])
+	case syntax.OpRepeat:
+		return re.Min == 0 || canBeEmpty(re.Sub[0])
+	case syntax.OpPlus:
+		return canBeEmpty(re.Sub[0])
+	case syntax.OpAlternate:
+		for _, s := range re.Sub {
+			if canBeEmpty(s) {
+				return true
+			}
+		}
+		return false
+	case syntax.OpConcat:
+		for _, s := range re.Sub {
+			if !canBeEmpty(s) {
+				return false
+			}
+		}
+		return true
+	case syntax.OpLiteral:
+		return len(re.Rune) == 0
+	}
+	return false
+}
+
+// checkFreshLineBuffer (C16 R6): the buffer a line emitter hands to the opcode writer is allocated
+// for that line - a bytes.NewBuffer call or a local in the emitter or (for a helper) in every one of
+// its callers - never taken from a pool or a package-level variable, whose contents outlive a
+// refused line and are emitted in front of the next program.
+func checkFreshLineBuffer(w *core.World, r *core.Report, rule string) {
+	wop := asmWriter(w, "vm.Opcode")
+	if wop == nil {
+		r.Undecided(rule, "assembler opcode writer", token.NoPos, "role not resolved")
+		return
+	}
+	var fresh func(fn *ssa.Function, v ssa.Value, d int) (bool, string)
+	fresh = func(fn *ssa.Function, v ssa.Value, d int) (bool, string) {
+		if d > 3 {
+			return false, "too deep"
+		}
+		srcs := core.Sources(v)
+		if len(srcs) == 0 {
+			return false, "unknown origin"
+		}
+		for _, src := range srcs {
+			switch t := src.(type) {
+			case *ssa.Alloc:
+				continue
+			case *ssa.Call:
+				if core.IsCallTo(t, "bytes.NewBuffer", "bytes.NewBufferString") {
+					continue
+				}
+				return false, "result of " + core.CallName(t)
+			case *ssa.Parameter:
+				pi := paramIndex(t)
+				m := 0
+				for _, caller := range w.FuncsIn("asm") {
+					for _, c := range callsToSet(caller, map[*ssa.Function]bool{fn: true}) {
+						m++
+						args := core.CallArgs(c)
+						if pi >= len(args) {
+							return false, "argument missing"
+						}
+						if ok, why := fresh(caller, args[pi], d+1); !ok {
+							return false, why
+						}
+					}
+				}
+				if m == 0 {
+					return false, "no caller"
+				}
+				continue
+			}
+			return false, fmt.Sprintf("%T (pooled, package-level or otherwise long-lived)", src)
+		}
+		return true, ""
+	}
+	n, bad := 0, ""
+	var badPos token.Pos
+	for _, fn := range w.FuncsIn("asm") {
+		for _, c := range callsToSet(fn, map[*ssa.Function]bool{wop: true}) {
+			n++
+			r.Touch(core.QName(fn))
+			if ok, why := fresh(fn, core.CallArgs(c)[0], 0); !ok {
+				bad = fmt.Sprintf("the buffer %s writes the line into is not allocated for the line: %s", core.QName(fn), why)
+				badPos = c.Pos()
+			}
+		}
+	}
+	r.Check(bad == "" && n > 0, rule, "assembler: each line is assembled in its own buffer", badPos, fmt.Sprintf("%d opcode-writing site(s) use a buffer allocated for the line", n),
+		"bytes of one line (for instance of a line that was refused half-way) can be emitted in front of another line or program: "+bad)
+}
+
+// checkNewLineArgsUnmodified (C16 R6): vm.NewLine appends each string argument as it is - the bytes
+// appended derive from the range element itself, not from a slice or other derivative of it. A too
+// long argument cannot be refused by NewLine (open finding C14 R3) but it is never cut either.
+func checkNewLineArgsUnmodified(w *core.World, r *core.Report, rule string) {
+	nl := w.Func("vm", "NewLine")
+	if nl == nil {
+		r.Undecided(rule, "vm.NewLine", token.NoPos, "anchor not found")
+		return
+	}
+	r.Touch(core.QName(nl))
+	var strs *ssa.Parameter
+	for _, p := range nl.Params {
+		if p.Type().String() == "[]string" {
+			strs = p
+		}
+	}
+	n, bad := 0, ""
+	var badPos token.Pos
+	var exact func(v ssa.Value, d int) bool
+	exact = func(v ssa.Value, d int) bool {
+		if d > 6 {
+			return false
+		}
+		switch t := core.Strip(v).(type) {
+		case *ssa.Convert:
+			return exact(t.X, d+1)
+		case *ssa.Phi:
+			for _, e := range t.Edges {
+				if !exact(e, d+1) {
+					return false
+				}
+			}
+			return len(t.Edges) > 0
+		case *ssa.UnOp:
+			if t.Op == token.MUL {
+				if ia, ok := t.X.(*ssa.IndexAddr); ok && core.Strip(ia.X) == ssa.Value(strs) {
+					return true
+				}
+			}
+		}
+		return false
+	}
+	for _, c := range core.CallsTo(nl, "builtin.append") {
+		cc, ok := c.(*ssa.Call)
+		if !ok || len(cc.Call.Args) != 2 {
+			continue
+		}
+		// appends of bytes that derive from an element of strargs
+		fromArg := false
+		for _, src := range core.Sources(cc.Call.Args[1]) {
+			if uo, ok := src.(*ssa.UnOp); ok && uo.Op == token.MUL {
+				if ia, ok := uo.X.(*ssa.IndexAddr); ok && core.Strip(ia.X) == ssa.Value(strs) {
+					fromArg = true
+				}
+			}
+		}
+		if cv, ok := core.Strip(cc.Call.Args[1]).(*ssa.Convert); !ok || !fromArg {
+			_ = cv
+			continue
+		}
+		n++
+		if !exact(cc.Call.Args[1], 0) {
+			bad = "the bytes appended for a string argument are a slice or other derivative of the argument"
+			badPos = cc.Pos()
+		}
+	}
+	r.Check(bad == "" && n > 0, rule, "vm.NewLine: string arguments are appended unmodified", badPos, fmt.Sprintf("%d append site(s) write the argument itself", n),
+		"an instruction line can carry a cut or altered argument: the expansion of a batch menu line no longer equals the explicit instructions it stands for: "+bad)
 }
